@@ -14,6 +14,9 @@ struct DimacsDoc { std::string text; long n = 0; std::vector<FileEdge> edges; bo
 
 static std::string weight_token(Rng &r, double &val, bool allow_nonpos) {
     char b[64]; int k = (int) r.below(6);
+    if (r.chance(0.04)) { // decimals far below 1: still positive, however small
+        static const char *tiny[] = {"0.000000000000000154", "0.0000000000000000000000001", "0.00000000001", "0.000000000000000222", "0.0000001", "0.00000000000000000000000000000000000000000000000003"};
+        std::string t = tiny[r.below(6)]; if (allow_nonpos && r.chance(0.15)) t = r.chance(0.5) ? "0.000000000000000000" : "-" + t; val = strtod(t.c_str(), nullptr); return t; }
     if (k == 0) snprintf(b, sizeof b, "%lld", (long long) r.range(1, 9));
     else if (k == 1) snprintf(b, sizeof b, "%lld", (long long) r.range(10, 99999));
     else if (k == 2) snprintf(b, sizeof b, "%lld.%lld", (long long) r.range(0, 999), (long long) r.range(0, 999));
@@ -88,6 +91,13 @@ static void check_doc(CaseOut &co, const DimacsDoc &d) {
         if (got != f.w) { co.viol("dimacs:weight" + t2, "edge #" + std::to_string(i) + " has weight " + std::to_string(got) + ", the line says " + (f.has_w ? f.wtok : std::string("nothing (default 1)")), cj, d.text); return; }
         i++;
     }
+    // the three predicates on the graph the reader produced, against the text
+    { bool loops = false, multi = false, nonpos = false; std::set<std::pair<long, long>> seen;
+      for (auto &f : d.edges) { if (f.u == f.v) loops = true; if (!seen.insert(std::minmax(f.u, f.v)).second) multi = true; if (f.w <= 0) nonpos = true; }
+      bool gl = parmcb::has_loops(g), gn = parmcb::has_non_positive_weights(g, w);
+      if (gl != loops) co.viol("validators:has_loops", std::string("on the graph read from the text has_loops returned ") + (gl ? "true" : "false") + ", the text " + (loops ? "has" : "has no") + " self-loop", cj, d.text);
+      if (gn != nonpos) co.viol("validators:has_non_positive_weights", std::string("on the graph read from the text has_non_positive_weights returned ") + (gn ? "true" : "false") + ", truth is " + (nonpos ? "true" : "false"), cj, d.text);
+      if (!loops) { bool gm = parmcb::has_multiple_edges(g); if (gm != multi) co.viol("validators:has_multiple_edges", std::string("on the graph read from the text has_multiple_edges returned ") + (gm ? "true" : "false") + ", truth is " + (multi ? "true" : "false"), cj, d.text); } }
 }
 
 static void check_validators(CaseOut &co, Rng &r) {
@@ -95,21 +105,24 @@ static void check_validators(CaseOut &co, Rng &r) {
     bool allow_loops = r.chance(0.4);
     G g(n); auto w = boost::get(boost::edge_weight, g);
     bool loops = false, multi = false, nonpos = false; std::set<std::pair<int, int>> seen; std::string desc;
-    int wk = (int) r.below(4);
+    int wk = (int) r.below(5); bool extreme = false;
+    static const double xs[] = {1e-300, 4.9406564584124654e-324, 1e-17, 2.2204460492503131e-16, 1.1e-16, 1e-9, 1.1920928955078125e-7, 1e-5, 1e300, 1.7976931348623157e308,
+        -1e-300, -4.9406564584124654e-324, -0.0, 0.0, -1e-17, 1.0, 3.0};
     for (int i = 0; i < m; i++) {
         int a = (int) r.below(n), b = (int) r.below(n);
         if (a == b && !allow_loops) { if (n == 1) continue; b = (a + 1 + (int) r.below(n - 1)) % n; }
         double wt = wk == 0 ? (double) r.range(1, 9) : wk == 1 ? (double) r.range(-2, 9) : wk == 2 ? (r.chance(0.1) ? 0.0 : r.range(1, 50) / 8.0) : (r.chance(0.05) ? -0.25 : r.range(1, 1000) / 1000.0);
+        if (wk == 4) { int xi = r.chance(0.8) ? (int) r.below(10) : 10 + (int) r.below(7); wt = xs[xi]; if (xi < 12) extreme = true; }   // mostly positive extremes, so that "all positive" happens
         auto e = boost::add_edge(a, b, g).first; w[e] = wt;
         if (a == b) loops = true; if (!seen.insert({std::min(a, b), std::max(a, b)}).second) multi = true; if (wt <= 0) nonpos = true;
-        desc += std::to_string(a) + "-" + std::to_string(b) + ":" + std::to_string(wt) + " ";
+        { char wb[40]; snprintf(wb, sizeof wb, "%.17g", wt); desc += std::to_string(a) + "-" + std::to_string(b) + ":" + wb + " "; }
     }
     std::string cj = J().str("component", "validators").num("n", n).str("edges", desc).done();
     bool gl = parmcb::has_loops(g), gn = parmcb::has_non_positive_weights(g, w);
     if (gl != loops) co.viol("validators:has_loops", std::string("has_loops returned ") + (gl ? "true" : "false") + ", the multigraph " + (loops ? "has" : "has no") + " self-loop", cj, desc);
     if (gn != nonpos) co.viol("validators:has_non_positive_weights", std::string("has_non_positive_weights returned ") + (gn ? "true" : "false") + ", truth is " + (nonpos ? "true" : "false"), cj, desc);
     if (!loops) { bool gm = parmcb::has_multiple_edges(g); if (gm != multi) co.viol("validators:has_multiple_edges", std::string("has_multiple_edges returned ") + (gm ? "true" : "false") + ", truth is " + (multi ? "true" : "false"), cj, desc); }
-    if (loops) co.tag("v:loops"); if (multi) co.tag("v:multi"); if (nonpos) co.tag("v:nonpos"); if (!loops && !multi && !nonpos) co.tag("v:clean");
+    if (loops) co.tag("v:loops"); if (multi) co.tag("v:multi"); if (nonpos) co.tag("v:nonpos"); if (!loops && !multi && !nonpos) co.tag("v:clean"); if (extreme) co.tag(nonpos ? "v:extreme_magnitudes+nonpos" : "v:extreme_magnitudes_all_positive");
 }
 
 int main(int argc, char **argv) {
